@@ -9,32 +9,63 @@ mod c09;
 mod c10;
 mod c18;
 mod cad;
+mod child;
 mod common;
 mod enc;
 mod fad;
 mod gad;
-mod toy;
-mod child;
 mod io;
 mod probe;
+mod toy;
 mod tv;
 
 #[cfg(not(miri))]
 #[global_allocator]
 static GLOBAL: alloc::MonAlloc = alloc::MonAlloc;
 
+/// items of the `--miri-slice` workload
+const SLICE_ITEMS: &[&str] = &[
+    "field/grid/t251/d",
+    "field/grid/goldilocks/d",
+    "field/grid/m127/d",
+    "field/toy/F7_2",
+    "toy/sw_a_h2",
+    "toy/sw_a_h2/compressed",
+    "toy/te_inc/compressed",
+    "flags",
+    "container/Vec<u8>",
+    "container/Option<Vec<u16>>",
+    "container/String",
+    "container/Named",
+    "container/NestedTup",
+    "container/BTreeMap<u8,u16>",
+    "wrapper-validation",
+];
+
 fn main() {
     if std::env::args().nth(1).as_deref() == Some("--child-deser") {
         child::child_main(&c18::child_probe);
     }
-    let args = Args::parse();
+    let mut args = Args::parse();
     let t0 = Instant::now();
+    // `--miri-slice 1`: a few hundred cases on N <= 2 fields, toy curves and a few containers, sized for
+    // Miri / valgrind (no child processes under Miri, no required classes, budgets / 40)
+    let slice = args.extra.contains_key("miri-slice");
+    let only = args.only.clone();
+    if slice {
+        common::set_slice(true);
+        args.jobs = args.jobs.min(4);
+        // make the item constructors see a partial run (required classes are only declared for whole runs)
+        args.only = Some("slice".into());
+    }
     let (items, rule): (Vec<Item>, &str) = match args.prop.as_str() {
         "C09" => (c09::items(&args), c09::RULE),
         "C10" => (c10::items(&args), c10::RULE),
         "C18" => (c18::items(&args), c18::RULE),
         p => panic!("mon_ser does not serve property {p}"),
     };
+    args.only = only;
+    let items: Vec<Item> = if slice { items.into_iter().filter(|i| SLICE_ITEMS.contains(&i.name.as_str())).collect() } else { items };
     let rep = run_items(&args, items);
     finish(&args, "mon_ser", rule, rep, t0)
 }
